@@ -154,7 +154,11 @@ class isoparser(object):
 
         if len(components) > 3 and components[3] == 24:
             components[3] = 0
-            return datetime(*components) + timedelta(days=1)
+            try:
+                return datetime(*components) + timedelta(days=1)
+            except OverflowError as e:
+                msg = 'ISO-8601 string denotes a date past the maximum year'
+                six.raise_from(ValueError(msg), e)
 
         return datetime(*components)
 
@@ -338,7 +342,11 @@ class isoparser(object):
 
         # Now add the specific number of weeks and days to get what we want
         week_offset = (week - 1) * 7 + (day - 1)
-        return week_1 + timedelta(days=week_offset)
+        try:
+            return week_1 + timedelta(days=week_offset)
+        except OverflowError as e:
+            msg = 'ISO week date falls past the maximum year'
+            six.raise_from(ValueError(msg), e)
 
     def _parse_isotime(self, timestr):
         len_str = len(timestr)
